@@ -46,7 +46,7 @@ def _retention_dispatcher(kind: str, validator: str, flavour: str):
             raise RuntimeError('boom')
         return a
 
-    if flavour == 'func':
+    if flavour in ('func', 'func-positional'):
         if is_async:
             @v.validate(**vargs)
             async def meth(ctx, a: int, fail: str = ''):
@@ -57,7 +57,7 @@ def _retention_dispatcher(kind: str, validator: str, flavour: str):
             def meth(ctx, a: int, fail: str = ''):
                 assert isinstance(ctx, Ctx)
                 return body(a, fail)
-        d.add(meth, 'meth', context='ctx')
+        d.add(meth, 'meth', context='ctx', positional=(flavour == 'func-positional'))
     elif flavour == 'view-wrapped':
         # a class based view whose method sits behind an ordinary functools.wraps decorator (logging, auth, timing ...)
         import functools
@@ -216,7 +216,7 @@ class C13(Check):
         "cases: (a) histories of 0..12 (quick) / 0..30 (thorough) generated request documents (C01-C04 corpus: valid, failing, batch, "
         "rejected, non-JSON) served by one dispatcher, followed by a probe request whose response document and codes are compared with the "
         "probe served by a fresh dispatcher built from the same spec - also for same-named functions with different annotations and for functions whose signatures compare equal although their defaults differ in type (1 / True / 1.0) that share one PydanticValidator instance and for methods with different per-method arguments that share one JsonSchemaValidator instance; (b) retention: N in {1, 10, 1000} dispatches, a fresh weak-"
-        "referenceable context object each, for function methods, class based view methods with and without a constructor context and behind a functools.wraps decorator, a context-only method called without params and a context-free method x validator {base, jsonschema, pydantic} x "
+        "referenceable context object each, for function methods (context by name or as first positional argument), class based view methods with and without a constructor context and behind a functools.wraps decorator, a context-only method called without params and a context-free method x validator {base, jsonschema, pydantic} x "
         "sync / async x request kinds (ok, notification, raises, does not bind / validate, unknown, rejected, batch, non-JSON): after gc no "
         "context object and no view instance is alive; (b2) growth: three passes of N in {100, 200, 1000} requests whose client-supplied text never repeats (unknown and dotted method names, argument values, "
         "string ids, unknown parameter names, invalid values, versions, batches, non-JSON) - the number of gc-tracked objects alive after the third pass exceeds the number after the second by less than N/2; (c) 2..16 threads dispatching rotated corpora through one shared dispatcher with "
@@ -229,7 +229,7 @@ class C13(Check):
         "thread schedules are sampled by the OS, not controlled: part (c) can expose a race, it cannot exclude one",
     ]
     trusted_base = ['python gc / weakref', 'pbt/refserver.py (class labels only)']
-    required_classes = ['history/nontrivial', 'retention/func', 'retention/view', 'retention/view-noctx', 'retention/view-wrapped', 'retention/base', 'retention/jsonschema', 'retention/pydantic',
+    required_classes = ['history/nontrivial', 'retention/func', 'retention/func-positional', 'retention/view', 'retention/view-noctx', 'retention/view-wrapped', 'retention/base', 'retention/jsonschema', 'retention/pydantic',
                         'retention/n=1000', 'threads/run', 'vhistory/two-methods-before-probe', 'growth/run',
                         'growth/unknown-method', 'growth/batch-varying']
 
@@ -254,7 +254,7 @@ class C13(Check):
 
         retention = st.builds(
             lambda d, v, f, n, r: {'kind': 'retention', 'dispatcher': d, 'validator': v, 'flavour': f, 'n': n, 'requests': r},
-            st.sampled_from(['sync', 'async']), st.sampled_from(['base', 'jsonschema', 'pydantic']), st.sampled_from(['func', 'view', 'view-noctx', 'view-wrapped']),
+            st.sampled_from(['sync', 'async']), st.sampled_from(['base', 'jsonschema', 'pydantic']), st.sampled_from(['func', 'func-positional', 'view', 'view-noctx', 'view-wrapped']),
             st.sampled_from([1, 10, 10, 30]), st.lists(st.sampled_from(sorted(RETENTION_REQUESTS)), min_size=1, max_size=4),
         )
         vcall = st.tuples(st.sampled_from(['users.get', 'posts.get', 'users.get_many', 'ip.strict', 'ip.lax', 'ip.lax', 'pick.int', 'pick.bool', 'pick.float']),
@@ -287,7 +287,7 @@ class C13(Check):
         for n in ns:
             for d in ('sync', 'async'):
                 for v in ('base', 'jsonschema', 'pydantic'):
-                    for f in ('func', 'view', 'view-noctx', 'view-wrapped'):
+                    for f in ('func', 'func-positional', 'view', 'view-noctx', 'view-wrapped'):
                         out.append({'kind': 'retention', 'dispatcher': d, 'validator': v, 'flavour': f, 'n': n,
                                     'requests': ['ok', 'raises-exc', 'does-not-validate', 'batch', 'notification', 'ping-no-params', 'noctx', 'ping-empty-list']})
         return out
